@@ -384,6 +384,18 @@ def Run.done (s : Run) : Bool := s.queues.all List.isEmpty
 def sequentialSchedule (queues : List (List Json)) : List Nat :=
   (queues.zipIdx.map fun (q, i) => List.replicate q.length i).flatten
 
+/-! ### `CompassApp::run`: which responses reach the sink -/
+
+/-- `CompassApp::run` after input processing.  `queues`: the responses of the queries that passed the input
+plugins, per worker (they go through `run_batch_with(out)_responses`, hence through the sink).
+`inputErrors`: the error responses of the queries that failed input processing — they are chained onto the
+result (`run_query_result.chain(error_inputs)`) and never handed to the sink.  Result: the sink and what the
+caller gets back. -/
+def appRun (N : NumOps) (persist : Bool) (sink : FileSink) (queues : List (List Json))
+    (inputErrors : List Json) (schedule : List Nat) : FileSink × List Json :=
+  let final := (Run.init sink queues).exec N persist schedule
+  (final.sink, final.returned.flatten ++ inputErrors)
+
 /-! ### CSV reading side: how a reader splits a row -/
 
 /-- field boundaries as an RFC 4180 reader sees them: a comma separates unless inside double quotes; every
